@@ -248,7 +248,7 @@ def sim_peer(sim):
 # ------------------------------------------------------------------ C01 threaded transfers
 
 
-def run_structure_transfers(S, C, transfers):
+def run_structure_transfers(S, C, transfers, struct_hook=None):
     """a list of transfers on ONE GeckoStructure / one socket (as a spa connection does);
     transfers: dicts with start, len, c2s, s2c (decoded tapes), s2c_cycle (bool)"""
     from geckolib.driver import (GeckoPacketProtocolHandler, GeckoStatusBlockProtocolHandler,
@@ -262,6 +262,8 @@ def run_structure_transfers(S, C, transfers):
         eng.peer = sim_peer(sim)
         sock.add_receive_handler(GeckoPacketProtocolHandler(socket=sock))
         struct = GeckoStructure(None)
+        if struct_hook is not None:
+            struct_hook(struct)     # e.g. build the accessors of a pack and watch them
         parms = (SPA_ADDR[0], SPA_ADDR[1], b"SPA01:02:03:04:05:06", b"IOSvp")
         for tr in transfers:
             sim.structure.set_status_block(S)
